@@ -66,9 +66,47 @@ def always_exits(body):
     return False
 
 
+def _chain(e):
+    """Dotted path of a Name/Attribute chain (subscripts are skipped:
+    a.b[i].c -> 'a.b'), or None."""
+    parts = []
+    while True:
+        if isinstance(e, ast.Attribute):
+            parts.append(e.attr)
+            e = e.value
+        elif isinstance(e, ast.Subscript):
+            parts = []          # what is stored through a subscript belongs to the container
+            e = e.value
+        elif isinstance(e, ast.Name):
+            parts.append(e.id)
+            return ".".join(reversed(parts))
+        else:
+            return None
+
+
+def refs(expr):
+    """All dotted paths an expression reads, with all their prefixes."""
+    out = set()
+    for n in ast.walk(expr):
+        if isinstance(n, (ast.Name, ast.Attribute)):
+            parts = []
+            e = n
+            while isinstance(e, ast.Attribute):
+                parts.append(e.attr)
+                e = e.value
+            if isinstance(e, ast.Name):
+                parts.append(e.id)
+                parts.reverse()
+                for i in range(1, len(parts) + 1):
+                    out.add(".".join(parts[:i]))
+    return out
+
+
 def assigned_names(node):
-    """Names (re)bound or mutated anywhere inside `node` (deep, but not inside
-    nested function definitions)."""
+    """Paths (names or dotted attribute chains) that are (re)bound or mutated
+    anywhere inside `node` (deep, but not inside nested function definitions).
+    A store `a.b[i] = v` or `a.b.append(v)` yields 'a.b'; `a.b = v` yields 'a.b';
+    a method call `a.m()` with a mutator name yields 'a'."""
     out = set()
 
     def target(t):
@@ -79,12 +117,14 @@ def assigned_names(node):
                 target(e)
         elif isinstance(t, ast.Starred):
             target(t.value)
-        elif isinstance(t, (ast.Subscript, ast.Attribute)):
-            base = t
-            while isinstance(base, (ast.Subscript, ast.Attribute)):
-                base = base.value
-            if isinstance(base, ast.Name):
-                out.add(base.id)
+        elif isinstance(t, ast.Subscript):
+            c = _chain(t.value)
+            if c:
+                out.add(c)
+        elif isinstance(t, ast.Attribute):
+            c = _chain(t)
+            if c:
+                out.add(c)
 
     stack = [node]
     while stack:
@@ -99,8 +139,6 @@ def assigned_names(node):
             target(n.target)
         elif isinstance(n, (ast.For, ast.AsyncFor)):
             target(n.target)
-        elif isinstance(n, ast.comprehension):
-            pass  # comprehension variables are local to the comprehension
         elif isinstance(n, ast.With):
             for it in n.items:
                 if it.optional_vars is not None:
@@ -112,11 +150,9 @@ def assigned_names(node):
             target(n.target)
         elif isinstance(n, ast.Call) and isinstance(n.func, ast.Attribute) \
                 and n.func.attr in MUTATORS:
-            base = n.func.value
-            while isinstance(base, (ast.Subscript, ast.Attribute)):
-                base = base.value
-            if isinstance(base, ast.Name):
-                out.add(base.id)
+            c = _chain(n.func.value)
+            if c:
+                out.add(c)
         stack.extend(ast.iter_child_nodes(n))
     return out
 
@@ -140,7 +176,7 @@ def walk_function(fnode):
 def _drop(facts, names):
     if not names:
         return facts
-    return [f for f in facts if not (names_in(f[0]) & names)]
+    return [f for f in facts if not (refs(f[0]) & names)]
 
 
 def _walk(body, facts, loops, parents):
@@ -231,7 +267,10 @@ def contexts_by_node(fnode):
 # ---- small fact matchers ----------------------------------------------------
 
 def same(a, b):
-    return ast.dump(a) == ast.dump(b)
+    """Structural equality of two expressions, ignoring Load/Store context."""
+    if a is None or b is None:
+        return a is b
+    return ast.unparse(a) == ast.unparse(b)
 
 
 def _cmp_parts(expr):
